@@ -11,6 +11,11 @@ NOTES = ("Contract-based deductive verification. Each check extracts the real fu
          "otherwise labelled bounded and not counted) discharge every obligation. Exit 2 = undecided (lost anchor / unsupported construct / solver limit), never an alarm.")
 
 CLAIMS = {
+    "C12": dict(
+        technique="Verus function contracts on the extracted real klukai-client SubscriptionStream::{handle_change,handle_eoq} + verified driver (inductive consecutive-ids statement)",
+        text="Unbounded proof (all u64 ids, all event sequences) of the client-library clause: an event is accepted iff its id is exactly last+1, a gap is reported as MissedChange{expected,got} and leaves the resume point unchanged. The server-side clause (catch-up vs. live races) is concurrent async code and is explicitly not decided.",
+        note="Field projection of SubscriptionStream to (observed_eoq,last_change_id); SubscriptionError reduced to the one variant the functions build; ids < u64::MAX assumed.",
+    ),
     "C02": dict(
         technique="Verus function contracts on the extracted real bookkeeping functions (PartialVersion::is_complete/full_range, ...) against a set-valued view of RangeInclusiveSet",
         text="Unbounded proof (Verus/Z3) over all range sets / all u64 values of the decision kernels the advertised sync state is computed from. Decides the per-function algebra only; that the functions are called inside the right SQLite transaction is not decided.",
@@ -40,7 +45,6 @@ NOT_APPLICABLE = {
     "C07": "check not built yet in this round (planned: DESIGN.md §5/C07)",
     "C09": "check not built yet in this round (planned: DESIGN.md §5/C09)",
     "C10": "check not built yet in this round (planned: DESIGN.md §5/C10)",
-    "C12": "check not built yet in this round (planned: DESIGN.md §5/C12)",
     "C14": "check not built yet in this round (planned: DESIGN.md §5/C14)",
     "C16": "check not built yet in this round (planned: DESIGN.md §5/C16)",
     "C17": "check not built yet in this round (planned: DESIGN.md §5/C17)",
